@@ -46,6 +46,11 @@ class LoopFn:
         self.params = []
         self.loopvar = None                     # (decl id of i, [vector fields zipped])
         self.rangevar = None                    # decl id of the range-for variable
+        self.pairmaps = set()                   # names of maps keyed by std::pair<int,int>
+        self.lambdas = {}                       # decl id -> lean name of a local pair-valued lambda
+        self.lets = []                          # definitions of those lambdas
+        self.subst = {}                         # parameter decl id -> lean term (lambda parameters, inlined callees)
+        self.methods = {}                       # name -> decl of small void members of the same class that may be inlined
 
     # ---------------------------------------------------------------- helpers
     def vec(self, name):
@@ -74,6 +79,8 @@ class LoopFn:
             if n.get('castKind') in ('LValueToRValue', 'NoOp', 'IntegralCast', 'IntegralToFloating', 'FloatingCast'):
                 return self.expr(n['inner'][0])
             raise TranslateError('loops: cast %s' % n.get('castKind'))
+        if k == 'CXXBoolLiteralExpr':
+            return '(1 : Int)' if n['value'] else '(0 : Int)'
         if k == 'FloatingLiteral':
             v = float(n['value'])
             if v != int(v):
@@ -83,6 +90,8 @@ class LoopFn:
             return '(%s : Int)' % n['value']
         if k == 'DeclRefExpr':
             rd = n['referencedDecl']
+            if rd.get('id') in self.subst:
+                return self.subst[rd['id']]
             if rd['kind'] == 'ParmVarDecl':
                 p = 'p_' + rd['name']
                 if p not in self.params:
@@ -116,6 +125,10 @@ class LoopFn:
             b = strip_casts(n['inner'][0])
             if b.get('kind') == 'DeclRefExpr' and b['referencedDecl'].get('id') == self.rangevar and n['name'] in ('first', 'second'):
                 return 'vc.%d' % (1 if n['name'] == 'first' else 2)
+            if b.get('kind') == 'MemberExpr' and b.get('name') == 'first' and n['name'] in ('first', 'second'):
+                bb = strip_casts(b['inner'][0])
+                if bb.get('kind') == 'DeclRefExpr' and bb['referencedDecl'].get('id') == self.rangevar:
+                    return 'vc.1.%d' % (1 if n['name'] == 'first' else 2)      # key of a map keyed by std::pair
             raise TranslateError('loops: member %s' % n.get('name'))
         if k == 'CXXMemberCallExpr':
             c = strip(n['inner'][0])
@@ -127,6 +140,25 @@ class LoopFn:
                     return '(s.%s.length : Int)' % self.vec(self.size_field)
             raise TranslateError('loops: member call %s' % c.get('name'))
         raise TranslateError('loops: expression node %s' % k)
+
+    def pexpr(self, n):
+        """std::pair<int,int>-valued expression -> Lean term of type Int × Int"""
+        n = strip(n)
+        k = n.get('kind')
+        if k in ('ImplicitCastExpr', 'CXXFunctionalCastExpr', 'MaterializeTemporaryExpr', 'CXXBindTemporaryExpr'):
+            return self.pexpr(n['inner'][0])
+        if k in ('CXXTemporaryObjectExpr', 'CXXConstructExpr') and len(n.get('inner', [])) == 2 and 'pair<int, int>' in n['type']['qualType']:
+            return '(%s, %s)' % (self.expr(n['inner'][0]), self.expr(n['inner'][1]))
+        if k in ('CXXConstructExpr',) and len(n.get('inner', [])) == 1:
+            return self.pexpr(n['inner'][0])                      # copy/move of a pair
+        if k == 'ConditionalOperator':
+            return '(if %s ≠ 0 then %s else %s)' % (self.expr(n['inner'][0]), self.pexpr(n['inner'][1]), self.pexpr(n['inner'][2]))
+        if k == 'CXXOperatorCallExpr':
+            c = _callee(n)
+            obj = peel(n['inner'][1]) if len(n['inner']) > 1 else {}
+            if c.get('referencedDecl', {}).get('name') == 'operator()' and obj.get('kind') == 'DeclRefExpr' and obj['referencedDecl'].get('id') in self.lambdas:
+                return '(%s %s)' % (self.lambdas[obj['referencedDecl']['id']], ' '.join(self.expr(a) for a in n['inner'][2:]))
+        raise TranslateError('loops: pair expression node %s' % k)
 
     # ---------------------------------------------------------------- statements: St -> St, written as `let s := …`
     def block(self, stmts, modifies):
@@ -142,6 +174,25 @@ class LoopFn:
             return self.block(n.get('inner', []), modifies)
         if k == 'DeclStmt':
             d = n['inner'][0]
+            ini0 = [c for c in d.get('inner', []) if isinstance(c, dict) and 'kind' in c]
+            if d.get('kind') == 'VarDecl' and ini0 and strip(ini0[-1]).get('kind') == 'LambdaExpr':
+                lam = strip(ini0[-1])
+                rec = [c for c in lam['inner'] if c.get('kind') == 'CXXRecordDecl'][0]
+                op = [c for c in rec['inner'] if c.get('kind') == 'CXXMethodDecl' and c.get('name') == 'operator()'][0]
+                ps = [c for c in op['inner'] if c.get('kind') == 'ParmVarDecl']
+                body = [strip(x) for x in [c for c in op['inner'] if c.get('kind') == 'CompoundStmt'][0].get('inner', [])]
+                if len(body) != 1 or body[0]['kind'] != 'ReturnStmt' or 'pair<int, int>' not in op['type']['qualType']:
+                    raise TranslateError('loops: lambda %s is not a single-return pair function' % d['name'])
+                for c in ps:
+                    self.subst[c['id']] = c['name']
+                self.lets.append('let %s := fun (%s : Int) => %s' % (d['name'], ' '.join(c['name'] for c in ps), self.pexpr(body[0]['inner'][0])))
+                self.lambdas[d['id']] = d['name']
+                return []
+            if d.get('kind') == 'VarDecl' and d['type']['qualType'].startswith('std::map<std::pair<int, int>,'):
+                if len(ini0) == 1 and strip(ini0[0])['kind'] == 'CXXConstructExpr' and not strip(ini0[0]).get('inner'):
+                    self.maps.append((d['id'], d['name']))
+                    self.pairmaps.add(d['name'])
+                    return []
             if d.get('kind') == 'VarDecl' and d['type']['qualType'].startswith('std::map<int,'):
                 ini = [c for c in d.get('inner', []) if isinstance(c, dict) and 'kind' in c]
                 if len(ini) == 1 and strip(ini[0])['kind'] == 'CXXConstructExpr' and not strip(ini[0]).get('inner'):
@@ -154,6 +205,8 @@ class LoopFn:
                 m = self.map_of(lhs['inner'][1])
                 if m:
                     modifies.add(m)
+                    if m in self.pairmaps:
+                        return ['let s := { s with %s := mapAddToP s.%s %s %s }' % (m, m, self.pexpr(lhs['inner'][2]), self.expr(n['inner'][1]))]
                     return ['let s := { s with %s := mapAddTo s.%s %s %s }' % (m, m, self.expr(lhs['inner'][2]), self.expr(n['inner'][1]))]
             raise TranslateError('loops: += on something that is not <map>[key]')
         if k == 'CXXMemberCallExpr':
@@ -165,6 +218,18 @@ class LoopFn:
             if fld and c['name'] == 'push_back' and len(n['inner']) == 2:
                 modifies.add(fld)
                 return ['let s := { s with %s := s.%s ++ [%s] }' % (fld, fld, self.expr(n['inner'][1]))]
+            if c.get('kind') == 'MemberExpr' and this_like(c['inner'][0])[0] and c['name'] in self.methods:
+                callee = self.methods[c['name']]
+                ps = [x for x in callee['inner'] if x.get('kind') == 'ParmVarDecl']
+                args = n['inner'][1:]
+                if len(ps) != len(args):
+                    raise TranslateError('loops: arity of %s' % c['name'])
+                saved = dict(self.subst)
+                for pdecl, a in zip(ps, args):
+                    self.subst[pdecl['id']] = self.expr(a)
+                out = self.block([x for x in callee['inner'] if x.get('kind') == 'CompoundStmt'][0].get('inner', []), modifies)
+                self.subst = saved
+                return out
             raise TranslateError('loops: statement call %s' % c.get('name'))
         if k == 'IfStmt':
             inner = n['inner']
@@ -189,16 +254,17 @@ class LoopFn:
             b = self.block([body], mods)
             zipped = list(self.loopvar[1])
             self.loopvar = None
-            if not zipped or len(zipped) > 2 or any(v in mods for v in self.vectors):
-                raise TranslateError('loops: index loop must read 1-2 vector fields at [i] and modify none')
+            if not zipped or len(zipped) > 3 or any(v in mods for v in self.vectors):
+                raise TranslateError('loops: index loop must read 1-3 vector fields at [i] and modify none')
             if self.size_field not in zipped:
                 raise TranslateError('loops: index loop does not read the vector whose size bounds it')
             modifies |= mods
             text = self.seq(b)
+            comp = {1: ['it'], 2: ['it.1', 'it.2'], 3: ['it.1', 'it.2.1', 'it.2.2']}[len(zipped)]
             for j, v in enumerate(zipped):
-                text = text.replace('it.%s' % v, 'it.%d' % (j + 1) if len(zipped) == 2 else 'it')
-            src = '(List.zip s.%s s.%s)' % tuple(zipped) if len(zipped) == 2 else 's.%s' % zipped[0]
-            ity = 'Int × Int' if len(zipped) == 2 else 'Int'
+                text = text.replace('it.%s' % v, comp[j])
+            src = {1: 's.%s', 2: '(List.zip s.%s s.%s)', 3: '(List.zip s.%s (List.zip s.%s s.%s))'}[len(zipped)] % tuple(zipped)
+            ity = {1: 'Int', 2: 'Int × Int', 3: 'Int × Int × Int'}[len(zipped)]
             return ['let s := %s.foldl (fun (s : %s.St) (it : %s) => %s) s' % (src, self.name, ity, text)]
         if k == 'CXXForRangeStmt':
             inner = [c for c in n['inner'] if isinstance(c, dict) and c]
@@ -217,7 +283,8 @@ class LoopFn:
             if m in mods:
                 raise TranslateError('loops: the map is modified while iterated')
             modifies |= mods
-            return ['let s := s.%s.foldl (fun (s : %s.St) (vc : Int × Int) => %s) s' % (m, self.name, self.seq(b))]
+            vty = '(Int × Int) × Int' if m in self.pairmaps else 'Int × Int'
+            return ['let s := s.%s.foldl (fun (s : %s.St) (vc : %s) => %s) s' % (m, self.name, vty, self.seq(b))]
         raise TranslateError('loops: statement node %s' % k)
 
     @staticmethod
@@ -233,13 +300,14 @@ class LoopFn:
                 self.params.append('p_' + c['name'])
         self.vec(self.size_field)
         lines = self.block(body.get('inner', []), set())
-        fields = ['  %s : List Int' % v for v in self.vectors] + ['  %s : List (Int × Int)' % m for _, m in self.maps]
+        fields = ['  %s : List Int' % v for v in self.vectors] + \
+                 ['  %s : List (%s × Int)' % (m, '(Int × Int)' if m in self.pairmaps else 'Int') for _, m in self.maps]
         st = 'structure %s.St where\n%s\n' % (self.name, '\n'.join(fields))
         args = ' '.join('(%s : Int)' % p for p in self.params) + ' ' + ' '.join('(f_%s : List Int)' % v for v in self.vectors)
         init = '⟨%s⟩' % ', '.join(['f_%s' % v for v in self.vectors] + ['[]' for _ in self.maps])
         res = '(%s)' % ', '.join('s.%s' % v for v in self.vectors)
-        d = 'def %s %s : %s :=\n  let s : %s.St := %s\n  %s\n  %s\n' % (
-            self.name, args, ' × '.join('List Int' for _ in self.vectors), self.name, init, '\n  '.join(lines), res)
+        d = 'def %s %s : %s :=\n  %slet s : %s.St := %s\n  %s\n  %s\n' % (
+            self.name, args, ' × '.join('List Int' for _ in self.vectors), ''.join(l + '\n  ' for l in self.lets), self.name, init, '\n  '.join(lines), res)
         return st + '\n' + d, self.params + ['f_' + v for v in self.vectors]
 
 
@@ -248,7 +316,7 @@ def size_field(size_decl):
     body = [c for c in size_decl.get('inner', []) if c.get('kind') == 'CompoundStmt'][0]
     st = [strip(x) for x in body.get('inner', [])]
     if len(st) == 1 and st[0]['kind'] == 'ReturnStmt':
-        e = strip_casts(st[0]['inner'][0])
+        e = peel(st[0]['inner'][0])
         if e.get('kind') == 'CXXMemberCallExpr':
             c = strip(e['inner'][0])
             b = strip_casts(c['inner'][0]) if c.get('kind') == 'MemberExpr' else {}
@@ -267,5 +335,13 @@ def mapAddTo : List (Int × Int) → Int → Int → List (Int × Int)
 /-- `fabs` on exact numbers -/
 def dabs (a : Int) : Int := if a < 0 then -a else a
 def lor (a b : Int) : Int := if a ≠ 0 ∨ b ≠ 0 then 1 else 0
+/-- `std::map<std::pair<int,int>, T>`: keys in lexicographic order (`std::pair::operator<`) -/
+def pairLt (a b : Int × Int) : Bool := decide (a.1 < b.1) || (decide (a.1 = b.1) && decide (a.2 < b.2))
+def mapAddToP : List ((Int × Int) × Int) → Int × Int → Int → List ((Int × Int) × Int)
+  | [], k, c => [(k, c)]
+  | (w, d) :: m, k, c =>
+    if pairLt k w then (k, c) :: (w, d) :: m
+    else if k = w then (w, d + c) :: m
+    else (w, d) :: mapAddToP m k c
 def land (a b : Int) : Int := if a ≠ 0 ∧ b ≠ 0 then 1 else 0
 '''
